@@ -68,6 +68,23 @@ def number_value_projection(case, reply):
     return re.sub(r"#([0-9a-f]+(?:\.[0-9a-f]+)*);", norm, reply)
 
 
+def c16_projection(case, reply):
+    """C16 fixes the round trip of well-typed data (and the shape of what to_value builds, numbers by
+    value); what an ill-typed or hand-made value deserializes to (`serde de` lines: error kinds,
+    acceptance) is the model's business, not the property's"""
+    if case.startswith("serde de "):
+        return ""
+    return number_value_projection(case, reply)
+
+
+def c17_projection(case, reply):
+    """serialization: exact spelling is part of the property; deserialization (`fromvalm`): same
+    structure, numbers by value"""
+    if case.startswith("serde fromvalm "):
+        return number_value_projection(case, reply)
+    return reply
+
+
 def c03_projection(case, reply):
     """accept / reject / abnormal end: which error a rejected input gets is C07's business"""
     head = reply.split(" ")[0]
@@ -318,32 +335,35 @@ PROPS = {
     "C16": dict(
         tables=[],
         determined=True,
-        projection_determined=lambda case, reply: number_value_projection(case, reply),
+        projection_determined=lambda case, reply: c16_projection(case, reply),
 
-        technique="Lean 4 theorems about a model of the serde Serializer (JSON shape of every data-model construct, structs = ordered objects, key serializer) fed with data recorded from real derive output; end-to-end round trips through to_value/from_value/serde_json on a family of derive-annotated types (direct oracles)",
-        level_text=("PARTIAL proof. A recording serde::Serializer in the harness turns each generated Rust datum into SData (what the datum looks like to a Serializer, as produced by the real serde-derive code); the Lean model `ser` of src/serde/ser.rs "
-                    "(Serializer, KeySerializer, StringNumberSerializer, compound serializers, the number-token channel, Object::insert semantics) must return exactly json_syntax::to_value(datum) — this ties the model to ser.rs on every run. "
-                    "Proved in Lean: C16_shape (null/transparent/externally-tagged/array shapes of every construct, as serde_json documents them), C16_struct (distinct field names, none the private token: ordered object of the fields), C16_map_keys (which key types are accepted and their string form). "
-                    "NOT modelled: src/serde/de.rs + serde-derive visitors (C16_roundtrip_full). The round-trip clauses are decided by direct oracles on the real code for a type family covering every shape (recursive struct with Option<Box<_>>, Vec<enum>, maps keyed by String/i32/char/u64/unit variant/newtype, unit/newtype/tuple/struct/nested enum variants, all 8 integer widths at their bounds, random-bit-pattern f32/f64 incl. non-finite, tuples, arrays, options): "
-                    "from_value(to_value(x)) == x (floats bit-exact up to -0), to_value(x) has serde_json's shape, from_value(from_serde_json(serde_json::to_value(x))) == x."),
-        level_note="Trusted: Lean kernel; serde, serde-derive, serde_json, lexical (float text is supplied by the real code as an opaque value of the model); the harness's recording serializer.",
-        rule="request = SData recorded from one generated datum; reply = to_value(datum). All cases non-trivial; distinct request lines. Round-trip oracles run on the datum itself",
-        strength="partial: serializer shape proved and tied by recording; deserializer and derive visitors tested only",
-        trusted_base=COMMON_TRUST + ["serde-derive generated code", "serde_json"],
-        assumptions=["finite floats print to a text that parses back to the same float (lexical); checked by the round-trip oracle"],
+        technique="Lean 4 theorems about a model of BOTH directions of the serde bridge: the Serializer (src/serde/ser.rs) and the Deserializer / MapKeyDeserializer / EnumDeserializer / VariantDeserializer with the visit_array / visit_object length checks (src/serde/de.rs), the latter driven by type descriptors that stand for serde's and serde-derive's Deserialize implementations; round trip proved by mutual structural induction over descriptors; model tied to the code by a recording serializer and a descriptor-interpreting deserialization client running the real code; end-to-end oracles on a family of derive-annotated types and through serde_json",
+        level_text=("The round trip is a Lean theorem on the model: C16_round_trip — for every type descriptor (bool, the eight integer widths, f32/f64, char, String, unit, unit struct, Option, newtype struct, Vec, tuple / tuple struct, maps keyed by strings / integers / chars / unit variants, structs, externally tagged enums with unit / newtype / tuple / struct variants, nested without bound) and every datum of that type (HasTy), "
+                    "to_value succeeds and deserializing its result at that type gives the datum back; C16_integers (every width, every in-range value: decimal text out, same integer in, via json-number's u64/i64 dispatch), C16_map_key_round_trip (to_string then str::parse for integer keys, one-char strings, variant names), C16_non_finite (non-finite floats become null, which no float type reads), "
+                    "C16_shape / C16_struct / C16_map_keys (the JSON shape of every construct, as serde_json documents it). The side conditions of HasTy are explicit: names distinct and not the private number token, map keys distinct as spelled, no Some around a value that serializes to null, floats finite and stable under the json-number / lexical text conversion (an assumption on that dependency, checked bit-for-bit by the oracle on every run). "
+                    "Tie to the code, both directions, on every run: (1) a recording serde::Serializer turns each generated Rust datum into SData and the model `ser` must return exactly json_syntax::to_value(datum); (2) a descriptor-interpreting client (harness/src/probe.rs) makes, for a run-time descriptor, exactly the deserialize_* request and visitor of the corresponding Rust type and runs the REAL Value deserializer; the model `de` must return the same datum or the same error class, on round trips of random descriptors x random well-typed data and on ill-typed / mutated values (type confusion, integer bounds of every width, key spellings, missing / duplicate / unknown fields, every variant payload kind); "
+                    "(3) that client is itself compared with real #[derive(Deserialize)] types of the same shape on every generated and mutated value. "
+                    "Not covered by a theorem: the serde_json clauses (shape agreement with serde_json, deserializing serde_json's rendering) and bit-exactness of floats — serde_json and lexical are dependencies; these clauses are decided by direct oracles on the real code for a type family covering every shape."),
+        level_note="Trusted: Lean kernel; serde, serde-derive (their Deserialize implementations are represented by type descriptors: the representation is validated against real derive output on every run, not proved), serde_json, json-number / lexical (float text conversions enter the model as the parameter FEnv, evaluated by the harness from the dependency); the harness's recording serializer and descriptor client.",
+        rule="request = SData recorded from one generated datum (reply = to_value(datum)), or a descriptor with a datum (reply = to_value and the datum deserialized back), or a descriptor with a value (reply = datum or error class). All cases non-trivial; distinct request lines. Round-trip oracles run on the datum itself",
+        strength="round trip proved on the model of ser.rs and de.rs for every descriptor-described type; serde_json agreement and float bit-exactness by oracle (dependencies)",
+        trusted_base=COMMON_TRUST + ["serde / serde-derive Deserialize implementations as represented by type descriptors (validated against real derive types on every run)", "serde_json", "json-number / lexical float conversions (parameter FEnv of the model)"],
+        assumptions=["finite floats print to a text that parses back to the same float (lexical): hypothesis `env.f64 t = some t` of HasTy; checked bit-for-bit by the round-trip oracle"],
     ),
     "C17": dict(
         tables=[],
         determined=True,
-        technique="Lean 4 theorem by mutual induction: to_value(&value) = value with 64-bit integer literals re-rendered, for values without duplicate keys (model of Serialize for Value/Object/Number composed with the serializer model); deserialization decided by direct oracles with class-predicate known findings",
-        level_text=("PARTIAL proof. Proved in Lean (C17_serialize): for every value whose numbers are JSON numbers, without duplicate keys and without the private number token as a key, serializing it with the crate's own serializer returns the same structure, strings and key order, "
+        projection_determined=lambda case, reply: c17_projection(case, reply),
+        technique="Lean 4 theorems by mutual induction over values: to_value(&value) = value with 64-bit integer literals re-rendered (model of Serialize for Value/Object/Number composed with the serializer model), and from_value::<Value>(value) = value with every number passed through json-number's visitor dispatch (model of Deserialize for Value driven by Deserializer for Value); both models tied to the real code by correspondence; serde_json text route and float values by direct oracles with class-predicate known findings",
+        level_text=("Proved in Lean. Serialization (C17_serialize): for every value whose numbers are JSON numbers, without duplicate keys and without the private number token as a key, serializing it with the crate's own serializer returns the same structure, strings and key order, "
                     "every number byte-for-byte except plain 64-bit integer literals which are re-rendered from the integer (-0 loses its sign); C17_number_verbatim (fraction / exponent / beyond 64 bits: exact spelling — the latter two since a fix: commit); "
                     "kernel-checked witnesses for the duplicate-key collapse (first position, last value) and for the number-token key (a recorded known finding). "
-                    "Deserialization (from_value::<Value>, serde_json::from_str::<Value>) is not modelled (C17_deserialize_full): direct oracles compare structure and numbers with what the deserializer itself reads; the >19-significant-digit one-ulp class named in the property is a known finding identified by its class predicate."),
-        level_note="Trusted: Lean kernel; str::parse::<i64/u64> = String.toInt?/toNat? with range check; i64/u64 to_string = Lean's toString; json-number, lexical, serde_json for the deserialization oracles.",
-        rule="request = a Value (to_value) or a Value for the oracle-only deserialization routes; reply = result of to_value. Non-trivial = successful; distinct request lines; oracle_only_cases counts the deserialization cases the model does not cover",
-        strength="partial: serialization proved; deserialization tested with known-finding classes",
-        trusted_base=COMMON_TRUST + ["json-number Deserializer / lexical (opaque)"],
+                    "Deserialization (C17_deserialize): for every value in which no object has duplicate keys or starts with the private number token, from_value::<Value> returns the same structure, strings and key order with every number passed through json-number's deserialize_any; C17_numbers_same_integer: a number read as u64 (i64) comes back as a text read as the same u64 (i64), every other number becomes lexical's text of the double it is parsed to (a parameter of the model: the >19-significant-digit one-ulp class named in the property is a known finding there) or null when that double is not finite; C17_magic_key_deserialize (number-token-first objects are read as numbers or rejected: same known finding). "
+                    "Both models are run against the real code on every value generated (to_value, from_value::<Value>, including mutated and token-carrying objects). serde_json::from_str::<Value> (the ValueVisitor driven by serde_json's deserializer) is decided by direct oracle only."),
+        level_note="Trusted: Lean kernel; str::parse::<i64/u64> = String.toInt?/toNat? with range check on number texts; i64/u64 to_string = Lean's toString; json-number, lexical (float conversions are a parameter of the model evaluated by the harness), serde_json for the text route.",
+        rule="request = a Value (to_value / from_value::<Value>), reply = the value built or the error class. Non-trivial = successful; distinct request lines; oracle_only_cases counts the serde_json text-route cases the model does not cover",
+        strength="serialization and Value-to-Value deserialization proved on the model; float values (lexical) and the serde_json text route by oracle with known-finding classes",
+        trusted_base=COMMON_TRUST + ["json-number / lexical float conversions (parameter of the model)", "serde_json (text route)"],
         assumptions=[],
     ),
     "C18": dict(
